@@ -373,6 +373,22 @@ func (it *Interp) inline(fr *Frame, fi *load.FuncInfo, recv Value, args []Value,
 		return it.opaqueResult(fi, recv, sig, call)
 	}
 	ret := nf.Ret
+	// outputs of a nested indicator Compute are tagged so that value analyses can stop at the indicator boundary
+	if fi.Fn.Name() == "Compute" && isIndicatorPkg(fi.Pkg.PkgPath) {
+		if o, ok := recv.(*Object); ok {
+			var ins, outs []*Stream
+			for _, a := range args {
+				collectStreams(a, &ins)
+			}
+			collectStreams(ret, &outs)
+			for i, s := range outs {
+				if s.Param == "" {
+					// the outermost call wins: seen from the caller the stream is this indicator's output
+					s.Ind = &IndCall{Obj: o, OutIdx: i, Args: ins, Pos: call.Pos()}
+				}
+			}
+		}
+	}
 	// contract override
 	if it.Mode == ModeContracts && fi.Fn.Name() == "Compute" && isIndicatorPkg(fi.Pkg.PkgPath) {
 		if o, ok := recv.(*Object); ok && it.hasMethod(o, "IdlePeriod") {
@@ -632,6 +648,9 @@ func (it *Interp) callIface(fr *Frame, o *Object, fn *types.Func, args []Value, 
 			s.Lead = lin.Add(leadIn, idle)
 		}
 		it.inheritPaths(s, st, ins)
+		if fn.Name() == "Compute" {
+			s.Ind = &IndCall{Obj: o, OutIdx: i, Args: ins, Pos: call.Pos()}
+		}
 		st.Outs = append(st.Outs, s)
 		outs = append(outs, s)
 	}
